@@ -117,7 +117,7 @@ def ops_for(hub, U, letters, rng, regime, tier):
                 x[key]
             except Exception:
                 pass
-    wassigns = assigns + [("L",) + ("-",) * (k - 2) + ("1",), ("L", "S") + ("-",) * (k - 2)]
+    wassigns = assigns + [("L",) + ("-",) * (k - 2) + ("1",), ("L", "S") + ("-",) * (k - 2), ("1", "-", "L") + ("-",) * (k - 3), ("L", "-", "1") + ("-",) * (k - 3), ("1", "L") + ("-",) * (k - 2)] * 2
     for assign in wassigns:
         key = idrv.build_key(fd, U, full, assign, rng, "rand", "letter")
         kd = key if isinstance(key, dict) else {}
@@ -127,6 +127,13 @@ def ops_for(hub, U, letters, rng, regime, tier):
             t.copy()[key] = 2.5
         except Exception:
             pass
+        # a bare array of the region's shape (axes = the target's dimensions in its storage order, singly addressed ones dropped)
+        rshape = tuple(len(d.items) if not isinstance(d, tuple) else len(d[2]) for d in rd)
+        if rshape:
+            try:
+                t.copy()[key] = gen.values_one("dyadic", rng, rshape)
+            except Exception:
+                pass
         if any(isinstance(d, tuple) for d in rd):
             continue
         dims = list(rd)
